@@ -44,6 +44,15 @@ var c10Inventory = []InvLine{
 	{Fn: "(*~/content/oci.Store).ensureOCILayoutFile", Callee: "(*os.File).Close", Role: "closes the read-only handle of oci-layout"},
 	{Fn: "(*~/content/oci.Store).loadIndexFile", Callee: "(*os.File).Close", Role: "closes the read-only handle of index.json"},
 	{Fn: "(*~/content/oci.Store).writeIndexFile", Callee: "os.WriteFile", Role: "writes index.json (see R2: in place — known finding D5)"},
+	// shape of the D5 repair (sibling temporary file renamed over index.json); R2 checks source and target of the rename
+	{Fn: "(*~/content/oci.Store).writeIndexFile", Callee: "os.CreateTemp", Role: "temporary sibling of index.json (replace-by-rename)"},
+	{Fn: "(*~/content/oci.Store).writeIndexFile", Callee: "(*os.File).Write", Role: "writes the temporary sibling"},
+	{Fn: "(*~/content/oci.Store).writeIndexFile", Callee: "(*os.File).Sync", Role: "flushes the temporary sibling"},
+	{Fn: "(*~/content/oci.Store).writeIndexFile", Callee: "(*os.File).Close", Role: "closes the temporary sibling"},
+	{Fn: "(*~/content/oci.Store).writeIndexFile", Callee: "(*os.File).Chmod", Role: "mode of the temporary sibling"},
+	{Fn: "(*~/content/oci.Store).writeIndexFile", Callee: "os.Chmod", Role: "mode of the temporary sibling"},
+	{Fn: "(*~/content/oci.Store).writeIndexFile", Callee: "os.Remove", Role: "cleanup of the temporary sibling (R2: never index.json itself)"},
+	{Fn: "(*~/content/oci.Store).writeIndexFile", Callee: "os.Rename", Role: "atomic replacement of index.json (R2)"},
 	{Fn: "(*~/content/oci.Storage).Push", Callee: "os.Rename", Role: "publication: verified ingest file -> blobs/<alg>/<hex>", Required: true},
 	{Fn: "(*~/content/oci.Storage).Push", Callee: "os.Remove", Role: "cleanup of the ingest file when the rename failed"},
 	{Fn: "(*~/content/oci.Storage).Delete", Callee: "os.Remove", Role: "removal of one blob", Required: true},
@@ -95,60 +104,70 @@ func c10IngestCalls(push *ssa.Function) []ssa.CallInstruction {
 
 // ---------------------------------------------------------------- R2
 
-// c10ReadBackFile: the path value names a file that oci.New reads back.
+// c10ReadBackFile: the path value *is* a file that oci.New reads back: the
+// store's indexPath, or Join(..., "index.json" | "oci-layout").  Paths merely
+// computed from those (Dir, a temporary sibling's name) do not count.
 func c10ReadBackFile(r *c08Roles, v ssa.Value) string {
-	if c08DerivesFromField(v, r.store, "indexPath") {
-		return "index.json"
+	rs := Roots(v)
+	if len(rs) == 0 {
+		return ""
 	}
-	found := ""
-	seen := map[ssa.Value]bool{}
-	var rec func(v ssa.Value, d int)
-	rec = func(v ssa.Value, d int) {
-		if v == nil || d > 8 || seen[v] || found != "" {
-			return
-		}
-		seen[v] = true
-		if s, ok := constString(v); ok {
-			if s == "index.json" || s == "oci-layout" {
-				found = s
-			}
-			return
-		}
-		switch u := v.(type) {
-		case *ssa.Call:
-			for _, a := range u.Call.Args {
-				rec(a, d+1)
-			}
-		case *ssa.Slice:
-			rec(u.X, d+1)
-		case *ssa.Alloc:
-			for _, ref := range *u.Referrers() {
-				switch w := ref.(type) {
-				case *ssa.IndexAddr:
-					for _, r2 := range *w.Referrers() {
-						if s, ok := r2.(*ssa.Store); ok && s.Addr == w {
-							rec(s.Val, d+1)
-						}
-					}
-				case *ssa.Store:
-					if w.Addr == u {
-						rec(w.Val, d+1)
-					}
-				}
-			}
+	file := ""
+	for _, rt := range rs {
+		got := ""
+		switch u := rt.(type) {
 		case *ssa.UnOp:
-			rec(u.X, d+1)
-		case *ssa.Phi:
-			for _, e := range u.Edges {
-				rec(e, d+1)
+			if u.Op == token.MUL && c09IsFieldAddrOf(u.X, r.store, "indexPath") {
+				got = "index.json"
 			}
-		case *ssa.BinOp:
-			rec(u.X, d+1)
-			rec(u.Y, d+1)
+		case *ssa.Call:
+			if n := CalleeName(u); (n == "path/filepath.Join" || n == "path.Join") && len(u.Call.Args) == 1 {
+				got = c10LastJoinElem(u.Call.Args[0])
+			}
+		case *ssa.Const:
+			if sv, ok := constString(u); ok && (strings.HasSuffix(sv, "/index.json") || strings.HasSuffix(sv, "/oci-layout") || sv == "index.json" || sv == "oci-layout") {
+				got = sv[strings.LastIndex(sv, "/")+1:]
+			}
+		}
+		if got != "index.json" && got != "oci-layout" {
+			return ""
+		}
+		if file != "" && file != got {
+			return ""
+		}
+		file = got
+	}
+	return file
+}
+
+// c10LastJoinElem: the constant last element of a variadic Join(a, b, "name").
+func c10LastJoinElem(v ssa.Value) string {
+	sl, ok := v.(*ssa.Slice)
+	if !ok {
+		return ""
+	}
+	a, ok := sl.X.(*ssa.Alloc)
+	if !ok {
+		return ""
+	}
+	best, name := int64(-1), ""
+	for _, ref := range *a.Referrers() {
+		ia, ok := ref.(*ssa.IndexAddr)
+		if !ok {
+			continue
+		}
+		k, ok := constInt(ia.Index)
+		if !ok {
+			return ""
+		}
+		for _, r2 := range *ia.Referrers() {
+			if st, ok := r2.(*ssa.Store); ok && st.Addr == ia && k > best {
+				best = k
+				name, _ = constString(st.Val)
+			}
 		}
 	}
-	rec(v, 0)
-	return found
+	return name
 }
 
 func c10R2(c *Ctx) {
@@ -196,6 +215,13 @@ func c10R2(c *Ctx) {
 			c.Violation(R2, key, call.Pos(), file+" already exists and is read back by oci.New, but is rewritten in place with "+CalleeName(call)+
 				" (open-truncate, then write): a process killed between the two system calls leaves an empty or partial "+file+" and oci.New fails to open the layout. "+
 				"Replace by writing a sibling temporary file and os.Rename over the target")
+		}
+		// a read-back file is never removed (there is no window without it)
+		for _, call := range Calls(f, func(nm string) bool { return nm == "os.Remove" || nm == "os.RemoveAll" }) {
+			if file := c10ReadBackFile(r, call.Common().Args[0]); file != "" {
+				n++
+				c.Violation(R2, FnName(f)+"|"+CalleeName(call), call.Pos(), file+" is removed: a process killed before it is recreated leaves a layout that oci.New cannot open (or that lost all tags)")
+			}
 		}
 		// renames over a read-back file: the source must be a temporary sibling created in this function
 		for _, call := range CallsTo(f, "os.Rename") {
@@ -508,6 +534,9 @@ var c10Mutants = []Mutant{
 		Old:    "\t\tif !os.IsNotExist(err) {\n\t\t\treturn fmt.Errorf(\"failed to open OCI layout file: %w\", err)\n\t\t}\n",
 		New:    "",
 		Expect: "C10.R2.replace-by-rename|(*~/content/oci.Store).ensureOCILayoutFile|os.WriteFile"},
+	{Name: "index-removed-before-rewrite", File: "content/oci/oci.go",
+		Old: "\treturn os.WriteFile(s.indexPath, indexJSON, 0666)\n", New: "\tos.Remove(s.indexPath)\n\treturn os.WriteFile(s.indexPath, indexJSON, 0666)\n",
+		Expect: "C10.R2.replace-by-rename|(*~/content/oci.Store).writeIndexFile|os.Remove"},
 	// R3
 	{Name: "rename-despite-ingest-error", File: "content/oci/storage.go",
 		Old:    "\tingest, err := s.ingest(expected, content)\n\tif err != nil {\n\t\treturn err\n\t}\n",
